@@ -92,6 +92,9 @@ ASSUMPTIONS = [
     "path, never by the bare same name - docs, limitation 2: `class SomeClass(SomeClass)` is not supported statically); no wildcard form between the two distributions",
     "module names: default m<k>; a third of the multi-module cases use names where the importing module's name is a string prefix of the imported module's name "
     "(mz / mz_x / mz_x_x, m1 / m10 / m100), all legal identifiers, never combined with the repeated-name (twin) layouts",
+    "a member is what is registered under a key of `members` (CPython: a key of the class __dict__): in 'replace' histories the replacement class may register one member "
+    "object under a second key through set_member (the tree API's `run = _run_impl`; the visitor never produces this, set_member is the documented producer API); the "
+    "second name is then a declared member of that class and inherited by its subclasses, its final target is the one object (path under the object's own name)",
     "import forms only reach classes defined in the named module (re-export chains use renamed from-imports); module and member names never collide",
 ]
 EXHAUSTIVE = True
@@ -158,6 +161,9 @@ def _new_class(case, hist):
             new.set_member(name, griffe.Attribute(name, value=f'"C{j}"'))
         elif k == 3:
             new.set_member(name, griffe.Class(name))
+    if hist.get("also"):
+        src, dst = hist["also"]
+        new.set_member(H.NAMES[dst], new.members[H.NAMES[src]])  # the same object under a second key
     return new
 
 
@@ -326,7 +332,7 @@ def judge_class(case, i: int, exp: dict, g, where: str) -> list[Fail]:
     allm = call("inherited", lambda: g.all_members, what=f"{path}.all_members")
     for n in sorted((set(inh) | want_inh | (set(allm) - own)) - skip_names):
         detail = {"class": i, "name": n}
-        cpy = f"{H.class_path(case, attrs[n][0])}.{n}" if n in want_inh else None
+        cpy = f"{H.class_path(case, attrs[n][0])}.{H.target_name(case, attrs[n][0], n)}" if n in want_inh else None
         if n in inh and n not in want_inh:
             if n in own:
                 fails.append(Fail("inherited-set", "own-name-listed", f"{shape}: inherited_members lists {n!r}, which {path} declares itself\n{where}", detail))
@@ -461,7 +467,7 @@ def judge_alias_view(case, i: int, exp: dict, al, where: str) -> list[Fail]:
     if set(allm) - unjudged != want_inh | own:
         fails.append(Fail("alias-view", "all_members-keys", f"{shape}: all_members through the alias has {sorted(set(allm) - unjudged)}, expected {sorted(want_inh | own)}\n{where}"))
     for n in sorted(want_inh):
-        cpy = f"{H.class_path(case, attrs[n][0])}.{n}"
+        cpy = f"{H.class_path(case, attrs[n][0])}.{H.target_name(case, attrs[n][0], n)}"
         views = [("inherited_members", inh.get(n)), ("all_members", allm.get(n))]
         try:
             views.append(("item access", call("alias-view", al.__getitem__, n, what=f"{ap}[{n!r}]", allowed=(KeyError,))))
@@ -489,8 +495,8 @@ def judge_alias_view(case, i: int, exp: dict, al, where: str) -> list[Fail]:
         if m.path != f"{ap}.{n}":
             fails.append(Fail("alias-view", "declared-path", f"{shape}: declared member {n!r} has path {m.path!r} through the alias, expected {ap}.{n}\n{where}"))
         tgt = call("alias-view", lambda m=m: m.final_target.path if m.is_alias else m.path, what=f"{ap}.{n} final_target")
-        if tgt != f"{path}.{n}":
-            fails.append(Fail("alias-view", "declared-shadowed", f"{shape}: declared member {n!r} through the alias targets {tgt}, expected {path}.{n}\n{where}"))
+        if tgt != f"{path}.{H.target_name(case, i, n)}":
+            fails.append(Fail("alias-view", "declared-shadowed", f"{shape}: declared member {n!r} through the alias targets {tgt}, expected {path}.{H.target_name(case, i, n)}\n{where}"))
     return fails
 
 
@@ -570,7 +576,9 @@ def evaluate(case):
         expect = H.oracle(case)
         where = (
             f"[history: everything loaded and queried, then {H.class_path(case, j)} replaced through set_member by a class with bases "
-            f"{[H.class_path(case, b) for b in hist['bases']]} and members {dict((n, H.KIND_NAME[k]) for n, k in zip(H.NAMES, hist['members']) if k)}]\n" + where
+            f"{[H.class_path(case, b) for b in hist['bases']]} and members {dict((n, H.KIND_NAME[k]) for n, k in zip(H.NAMES, hist['members']) if k)}"
+            + (f", member {H.NAMES[hist['also'][0]]!r} also registered under the key {H.NAMES[hist['also'][1]]!r}" if hist.get("also") else "")
+            + "]\n" + where
         )
     gclasses = _find_classes(case, loader.modules_collection)
     for i, exp in enumerate(expect):
@@ -640,6 +648,8 @@ def describe(case, expect):
                 j = hist["target"]
                 if any(j in anc for anc in H.ancestors(case["bases"])):
                     classes.add("pkg:history-replace:target-has-descendants")
+                if hist.get("also"):
+                    classes.add("pkg:history-replace:member-under-second-key")
                 if sorted(hist["bases"]) != sorted(H.int_bases(case["bases"][j])) or list(hist["bases"]) != H.int_bases(case["bases"][j]):
                     classes.add("pkg:history-replace:bases-change")
     nontrivial = "multi-base" in feats
